@@ -12,6 +12,8 @@ type result struct {
 	Harness   string         // non-empty: the harness itself failed (not a verdict)
 	Labels    map[string]int // execution-side counters
 	probes    int
+	instOK    []bool // per instance handle: really created
+	cmOK      []bool // per compiled-module handle: really created
 }
 
 type runner struct {
@@ -21,6 +23,8 @@ type runner struct {
 	names [2]map[string]int
 	res   *result
 	noGC  bool // sensitivity/self-test aid: ignore gc steps
+
+	mainInstEver, mainCMEver []bool
 }
 
 func sameObs(a, b obs) bool {
@@ -322,8 +326,25 @@ func runHistory(h *history, noGC bool) *result {
 		r.twin.shutdown()
 		r.main, r.twin = nil, nil
 	}()
+	defer func() {
+		// what really came into existence (compared with the generator's model by the caller)
+		for _, ih := range r.mainInstEver {
+			res.instOK = append(res.instOK, ih)
+		}
+		for _, c := range r.mainCMEver {
+			res.cmOK = append(res.cmOK, c)
+		}
+	}()
 	for i, s := range h.Steps {
-		if res.Violation, res.Harness = r.do(i, s); res.Violation != "" || res.Harness != "" {
+		ni, nc := len(r.main.insts), len(r.main.cms)
+		res.Violation, res.Harness = r.do(i, s)
+		for k := ni; k < len(r.main.insts); k++ {
+			r.mainInstEver = append(r.mainInstEver, r.main.insts[k] != nil)
+		}
+		for k := nc; k < len(r.main.cms); k++ {
+			r.mainCMEver = append(r.mainCMEver, r.main.cms[k] != nil)
+		}
+		if res.Violation != "" || res.Harness != "" {
 			return res
 		}
 		if res.Violation = r.probe(i, s); res.Violation != "" {
